@@ -78,6 +78,8 @@ type ServerSide struct {
 	DecodeErrBodyChanged bool   `json:"decode_err_body_changed,omitempty"`
 	Middleware2Saw       string `json:"middleware2_saw,omitempty"`
 	SecurityCalls        int    `json:"security_calls"`
+	SecurityRefused      bool   `json:"security_refused,omitempty"`
+	NewErrorStatus       int    `json:"new_error_status,omitempty"`
 	CustomNotFound       int    `json:"custom_not_found,omitempty"`
 	CustomNotAllow       int    `json:"custom_method_not_allowed,omitempty"`
 	Allow                string `json:"allow,omitempty"`
